@@ -524,4 +524,270 @@ theorem RxMsg.validate_err (m : RxMsg) (e : Exc) (h : m.validate = .error e) : e
           simp only [h1, h2, h3, h4, bind, Except.bind] at h
           exact RxMsg.validateBurst_err m e h3 h
 
+/-! ### parse_msg on the protocol layout -/
+
+theorem octet0_fin : ∀ v, v < 2 → ∀ t, t < 8 → (16 * v + t) >>> 4 = v ∧ (16 * v + t) &&& 7 = t := by
+  decide
+
+theorem be32_unpack (fn : Nat) (h : fn < 4294967296) : unpackBE32u (be32 fn) = .ok fn := by
+  simp only [be32, unpackBE32u, Except.ok.injEq]
+  omega
+
+theorem parseCommon_hdr (ver tn fn : Nat) (rest : Bytes) (hv : ver < 2) (ht : tn < 8)
+    (hf : fn < 4294967296) : parseCommon (hdr ver tn fn ++ rest) = .ok (ver, tn, fn) := by
+  obtain ⟨h1, h2⟩ := octet0_fin ver hv tn ht
+  have hk : Gen.Trxd.knownVersions.contains (ver : Int) = true := by
+    have : ver = 0 ∨ ver = 1 := by omega
+    rcases this with rfl | rfl <;> decide
+  have hu := be32_unpack fn hf
+  simp only [be32] at hu
+  have hl : ¬ (rest.length + 1 + 1 + 1 + 1 + 1 < 5) := by omega
+  simp only [parseCommon, hdr, be32, List.cons_append, List.nil_append, List.length_cons, chdrLen_eq,
+    index, List.getElem?_cons_zero, slice, bind, Except.bind, pure, Except.pure, h1, h2, hk, hl,
+    List.take_succ_cons, List.take_zero, List.drop_succ_cons, List.drop_zero, not_true_eq_false, if_false, hu]
+
+theorem txHdrLen_ok (ver : Nat) (h : ver < 2) : txHdrLen ver = .ok 6 := by
+  have : ver = 0 ∨ ver = 1 := by omega
+  rcases this with rfl | rfl <;> rfl
+
+theorem TxMsg.parseBurst_pad (bits : Bytes) (ver : Nat) (l : Bool)
+    (hb : bits.length = 148 ∨ bits.length = 444) : TxMsg.parseBurst (bits ++ pad ver l) = bits := by
+  have hp : pad ver l = [] ∨ pad ver l = [0, 0] := by
+    unfold pad; split <;> simp
+  unfold TxMsg.parseBurst
+  simp only [gmskBurstLen_eq, edgeBurstLen_eq, List.length_append]
+  rcases hp with hp | hp <;> rcases hb with hb | hb <;>
+    simp only [hp, hb, List.length_nil, List.length_cons, List.append_nil] <;>
+    simp (config := {decide := true}) only [if_true, if_false, ← hb, List.take_left', List.take_length]
+
+theorem TxMsg.parse_layout (f : TxFields) (l : Bool) (hv : f.ver < 2) (ht : f.tn < 8)
+    (hf : f.fn < 4294967296) (hb : f.bits.length = 148 ∨ f.bits.length = 444) :
+    TxMsg.parseMsg (layoutTx f l) =
+      .ok ⟨(f.ver : Int), some (f.fn : Int), some (f.tn : Int), some (f.pwr : Int), some f.bits⟩ := by
+  have e : layoutTx f l = hdr f.ver f.tn f.fn ++ (f.pwr :: (f.bits ++ pad f.ver l)) := by
+    simp only [layoutTx, List.append_assoc, List.cons_append, List.nil_append]
+  have hlen : (hdr f.ver f.tn f.fn ++ (f.pwr :: (f.bits ++ pad f.ver l))).length
+      = 6 + (f.bits ++ pad f.ver l).length := by
+    simp only [hdr, be32, List.length_append, List.length_cons, List.length_nil]; omega
+  have hpos : 0 < (f.bits ++ pad f.ver l).length := by
+    simp only [List.length_append]; omega
+  have hidx : index (hdr f.ver f.tn f.fn ++ (f.pwr :: (f.bits ++ pad f.ver l))) 5 = .ok f.pwr := by
+    simp only [index, hdr, be32, List.cons_append, List.nil_append, List.getElem?_cons_succ,
+      List.getElem?_cons_zero]
+  have hdrop : (hdr f.ver f.tn f.fn ++ (f.pwr :: (f.bits ++ pad f.ver l))).drop 6 = f.bits ++ pad f.ver l := by
+    simp only [hdr, be32, List.cons_append, List.nil_append, List.drop_succ_cons, List.drop_zero]
+  rw [e]
+  unfold TxMsg.parseMsg
+  simp only [parseCommon_hdr f.ver f.tn f.fn _ hv ht hf, txHdrLen_ok f.ver hv, bind, Except.bind, pure,
+    Except.pure, hlen, hidx, hdrop, TxMsg.parseBurst_pad f.bits f.ver l hb,
+    show ¬ (6 + (f.bits ++ pad f.ver l).length < 6) by omega,
+    show ¬ (6 + (f.bits ++ pad f.ver l).length = 6) by omega, if_false]
+
+/-- the regenerated table `_tab_usbit2sbit` inverts `127 - s` on -127..127 -/
+theorem u2s_point_fin : ∀ k : Fin 255,
+    Gen.Trxd.tabUsbit2sbit[softOctet ((k.val : Int) - 127)]? = some ((k.val : Int) - 127) := by
+  decide +kernel
+
+theorem u2s_point (s : Int) (h : -127 ≤ s ∧ s ≤ 127) :
+    Gen.Trxd.tabUsbit2sbit[softOctet s]? = some s := by
+  have := u2s_point_fin ⟨(s + 127).toNat, by omega⟩
+  have e : (((s + 127).toNat : Nat) : Int) - 127 = s := by omega
+  simpa only [e] using this
+
+theorem usbit2sbit_soft (b : List Int) (h : ∀ s ∈ b, -127 ≤ s ∧ s ≤ 127) :
+    usbit2sbit (b.map softOctet) = .ok b := by
+  unfold usbit2sbit
+  rw [translate_map Gen.Trxd.tabUsbit2sbit tabUsbit2sbit_length (fun x => 127 - (x : Int)) (b.map softOctet)]
+  · simp only [List.map_map, Except.ok.injEq]
+    have : b.map ((fun x : Nat => 127 - (x : Int)) ∘ softOctet) = b.map id := by
+      apply List.map_congr_left
+      intro s hs
+      have := h s hs
+      simp only [Function.comp, softOctet, id]
+      omega
+    rw [this, List.map_id]
+  · intro x hx
+    obtain ⟨s, hs, rfl⟩ := List.mem_map.mp hx
+    have hr := h s hs
+    rw [u2s_point s hr]
+    simp only [softOctet, Option.some.injEq]
+    omega
+
+theorem rxHdrLen_v0 : rxHdrLen 0 = .ok 8 := rfl
+theorem rxHdrLen_v1 : rxHdrLen 1 = .ok 11 := rfl
+
+theorem s16be_unpack (x : Int) (h : -32768 ≤ x ∧ x ≤ 32767) : unpackBE16s (s16be x) = .ok x := by
+  simp only [s16be, unpackBE16s, Except.ok.injEq]
+  split <;> omega
+
+/-- the four attributes `parse_mts` assigns -/
+def mtsParts (mts : Nat) : Bool × Option Modulation × Option Int × Option Int :=
+  let m := RxMsg.fresh.parseMts mts
+  (m.nopeInd, m.modType, m.tscSet, m.tsc)
+
+theorem parseMts_parts (m : RxMsg) (mts : Nat) :
+    m.parseMts mts = { m with nopeInd := (mtsParts mts).1, modType := (mtsParts mts).2.1,
+                              tscSet := (mtsParts mts).2.2.1, tsc := (mtsParts mts).2.2.2 } := by
+  unfold mtsParts RxMsg.parseMts
+  by_cases h1 : mts &&& Gen.Trxd.nopeInd > 0
+  · simp only [h1, if_true]
+  · by_cases h2 : ((mts >>> 3) &&& 15) &&& 12 > 0
+    · simp only [h1, h2, if_true, if_false]
+    · simp only [h1, h2, if_false]
+
+theorem mtsParts_nope : mtsParts 128 = (true, none, none, none) := by decide +kernel
+
+/-- `parse_mts` inverts `gen_mts` on every (modulation, TSC set, TSC) combination -/
+theorem mtsParts_fin : ∀ (mod : Modulation) (set : Fin 4) (tsc : Fin 8), (mod.coding = 0 ∨ set.val ≤ 1) →
+    (modOf mod.coding set.val).map (fun md => mtsParts (8 * md.bits + tsc.val)) =
+      some (false, some mod, some (set.val : Int), some (tsc.val : Int)) := by
+  decide +kernel
+
+theorem guess_fin : ∀ n ∈ [148, 444], ∀ k ∈ [0, 2],
+    RxMsg.guessMod ((n + k : Nat) : Int) = Modulation.pickByBl (n : Int) ∧
+    (Modulation.pickByBl (n : Int)).map (·.bl) = some n := by decide
+
+theorem RxMsg.parseHdr_v0 (m : RxMsg) (a0 a1 a2 a3 a4 : Nat) (rssi toa : Int) (rest : Bytes)
+    (hv : ¬ m.ver ≥ 1) (hr : -255 ≤ rssi ∧ rssi ≤ 0) (hto : -32768 ≤ toa ∧ toa ≤ 32767) :
+    m.parseHdr (a0 :: a1 :: a2 :: a3 :: a4 :: (-rssi).toNat :: ((toa % 65536).toNat / 256) ::
+        ((toa % 65536).toNat % 256) :: rest)
+      = .ok { m with rssi := some rssi, toa256 := some toa } := by
+  have hu := s16be_unpack toa hto
+  simp only [s16be] at hu
+  have hrr : -(((-rssi).toNat : Nat) : Int) = rssi := by omega
+  simp only [RxMsg.parseHdr, index, slice, List.getElem?_cons_succ, List.getElem?_cons_zero,
+    List.take_succ_cons, List.take_zero, List.drop_succ_cons, List.drop_zero, hu, hrr, bind, Except.bind,
+    pure, Except.pure, hv, if_false]
+
+theorem RxMsg.parseHdr_v1 (m : RxMsg) (a0 a1 a2 a3 a4 mts : Nat) (rssi toa ci : Int) (rest : Bytes)
+    (hv : m.ver ≥ 1) (hr : -255 ≤ rssi ∧ rssi ≤ 0) (hto : -32768 ≤ toa ∧ toa ≤ 32767)
+    (hci : -32768 ≤ ci ∧ ci ≤ 32767) :
+    m.parseHdr (a0 :: a1 :: a2 :: a3 :: a4 :: (-rssi).toNat :: ((toa % 65536).toNat / 256) ::
+        ((toa % 65536).toNat % 256) :: mts :: ((ci % 65536).toNat / 256) :: ((ci % 65536).toNat % 256) :: rest)
+      = .ok { ({ m with rssi := some rssi, toa256 := some toa } : RxMsg).parseMts mts with ci := some ci } := by
+  have hu := s16be_unpack toa hto
+  have hc := s16be_unpack ci hci
+  simp only [s16be] at hu hc
+  have hrr : -(((-rssi).toNat : Nat) : Int) = rssi := by omega
+  simp only [RxMsg.parseHdr, index, slice, List.getElem?_cons_succ, List.getElem?_cons_zero,
+    List.take_succ_cons, List.take_zero, List.drop_succ_cons, List.drop_zero, hu, hc, hrr, bind, Except.bind,
+    pure, Except.pure, hv, if_true]
+
+
+/-- version 0: the burst is cut to the guessed modulation's length, with or without the two legacy
+padding octets, whatever the (unsigned) soft-bit octets `u` are -/
+theorem RxMsg.parseBurst_v0 (m : RxMsg) (u : Bytes) (l : Bool) (hv : m.ver = 0)
+    (hb : u.length = 148 ∨ u.length = 444) :
+    m.parseBurst (u ++ pad 0 l)
+      = (match usbit2sbit u with
+         | .ok s => .ok { m with modType := Modulation.pickByBl u.length, burst := some s }
+         | .error e => .error e) := by
+  have hn : u.length ∈ [148, 444] := by rcases hb with hb | hb <;> simp [hb]
+  have hk : (pad 0 l).length ∈ [0, 2] := by unfold pad; split <;> simp
+  obtain ⟨hg, hm⟩ := guess_fin u.length hn (pad 0 l).length hk
+  have hlen : (u ++ pad 0 l).length = u.length + (pad 0 l).length := by
+    simp only [List.length_append]
+  cases hp : Modulation.pickByBl (u.length : Int) with
+  | none => simp only [hp, Option.map_none, reduceCtorEq] at hm
+  | some md =>
+    simp only [hp, Option.map_some, Option.some.injEq] at hm
+    have htake : (u ++ pad 0 l).take md.bl = u := by
+      rw [hm, List.take_left']
+      rfl
+    unfold RxMsg.parseBurst RxMsg.parseBurstV0
+    simp only [hv, if_true, hlen, hg, hp, htake, bind, Except.bind, pure, Except.pure]
+    cases usbit2sbit u <;> rfl
+
+theorem RxMsg.parseBurst_v1 (m : RxMsg) (b : List Int) (hv : ¬ m.ver = 0)
+    (hs : ∀ s ∈ b, -127 ≤ s ∧ s ≤ 127) :
+    m.parseBurst (b.map softOctet) = .ok { m with burst := some b } := by
+  unfold RxMsg.parseBurst
+  simp only [hv, if_false, usbit2sbit_soft b hs, bind, Except.bind, pure, Except.pure]
+
+/-- parsing a version-0 datagram: header, 148 or 444 soft-bit octets `u`, legacy padding or not -/
+theorem RxMsg.parse_v0_raw (self : RxMsg) (fn tn : Nat) (rssi toa : Int) (u : Bytes) (l : Bool)
+    (ht : tn < 8) (hf : fn < 4294967296) (hr : -255 ≤ rssi ∧ rssi ≤ 0)
+    (hto : -32768 ≤ toa ∧ toa ≤ 32767) (hb : u.length = 148 ∨ u.length = 444) :
+    RxMsg.parseMsgFrom self (hdr 0 tn fn ++ [(-rssi).toNat] ++ s16be toa ++ u ++ pad 0 l)
+      = (match usbit2sbit u with
+         | .ok s => .ok { self with ver := 0, fn := some (fn : Int), tn := some (tn : Int), rssi := some rssi,
+                                    toa256 := some toa, modType := Modulation.pickByBl u.length, burst := some s }
+         | .error e => .error e) := by
+  have e : hdr 0 tn fn ++ [(-rssi).toNat] ++ s16be toa ++ u ++ pad 0 l
+      = hdr 0 tn fn ++ ((-rssi).toNat :: (s16be toa ++ (u ++ pad 0 l))) := by
+    simp only [List.append_assoc, List.cons_append, List.nil_append]
+  have hpos : ¬ ((u ++ pad 0 l).length + 1 + 1 + 1 + 1 + 1 + 1 + 1 + 1 < 8) := by omega
+  have hne : ¬ ((u ++ pad 0 l).length + 1 + 1 + 1 + 1 + 1 + 1 + 1 + 1 = 8) := by
+    simp only [List.length_append]; omega
+  rw [e]
+  unfold RxMsg.parseMsgFrom
+  simp only [parseCommon_hdr 0 tn fn _ (by omega) ht hf, rxHdrLen_v0, bind, Except.bind, pure, Except.pure]
+  simp only [hdr, be32, s16be, List.cons_append, List.nil_append, List.length_cons, hpos, hne, if_false]
+  rw [RxMsg.parseHdr_v0 _ _ _ _ _ _ rssi toa _ (by show ¬ (((0 : Nat) : Int) ≥ 1); omega) hr hto]
+  simp only [List.drop_succ_cons, List.drop_zero]
+  rw [RxMsg.parseBurst_v0 _ u l rfl hb]
+  cases usbit2sbit u <;> rfl
+
+/-- parsing the version-0 layout (legacy padding or not) of a burst with soft bits in -127..127 -/
+theorem RxMsg.parse_v0 (self : RxMsg) (fn tn : Nat) (rssi toa : Int) (b : List Int) (l : Bool)
+    (ht : tn < 8) (hf : fn < 4294967296) (hr : -255 ≤ rssi ∧ rssi ≤ 0)
+    (hto : -32768 ≤ toa ∧ toa ≤ 32767) (hb : b.length = 148 ∨ b.length = 444)
+    (hs : ∀ s ∈ b, -127 ≤ s ∧ s ≤ 127) :
+    RxMsg.parseMsgFrom self (hdr 0 tn fn ++ [(-rssi).toNat] ++ s16be toa ++ b.map softOctet ++ pad 0 l)
+      = .ok { self with ver := 0, fn := some (fn : Int), tn := some (tn : Int), rssi := some rssi,
+                        toa256 := some toa, modType := Modulation.pickByBl b.length, burst := some b } := by
+  rw [RxMsg.parse_v0_raw self fn tn rssi toa (b.map softOctet) l ht hf hr hto (by simpa using hb),
+    usbit2sbit_soft b hs]
+  simp only [List.length_map]
+
+/-- parsing the version-1 layout of a NOPE indication -/
+theorem RxMsg.parse_v1_nope (self : RxMsg) (fn tn : Nat) (rssi toa ci : Int)
+    (ht : tn < 8) (hf : fn < 4294967296) (hr : -255 ≤ rssi ∧ rssi ≤ 0)
+    (hto : -32768 ≤ toa ∧ toa ≤ 32767) (hci : -32768 ≤ ci ∧ ci ≤ 32767) :
+    RxMsg.parseMsgFrom self (hdr 1 tn fn ++ [(-rssi).toNat] ++ s16be toa ++ ([128] ++ s16be ci))
+      = .ok { self with ver := 1, fn := some (fn : Int), tn := some (tn : Int), rssi := some rssi,
+                        toa256 := some toa, nopeInd := true, modType := none, tscSet := none, tsc := none,
+                        ci := some ci, burst := none } := by
+  have e : hdr 1 tn fn ++ [(-rssi).toNat] ++ s16be toa ++ ([128] ++ s16be ci)
+      = hdr 1 tn fn ++ ((-rssi).toNat :: (s16be toa ++ (128 :: (s16be ci ++ [])))) := by
+    simp only [List.append_assoc, List.cons_append, List.nil_append, List.append_nil]
+  rw [e]
+  unfold RxMsg.parseMsgFrom
+  simp only [parseCommon_hdr 1 tn fn _ (by omega) ht hf, rxHdrLen_v1, bind, Except.bind, pure, Except.pure]
+  simp only [hdr, be32, s16be, List.cons_append, List.nil_append, List.length_cons, List.length_nil,
+    show ¬ (0 + 1 + 1 + 1 + 1 + 1 + 1 + 1 + 1 + 1 + 1 + 1 < 11) by omega, if_false, if_true]
+  rw [RxMsg.parseHdr_v1 _ _ _ _ _ _ 128 rssi toa ci _ (by show (((1 : Nat) : Int) ≥ 1); omega) hr hto hci]
+  simp only [parseMts_parts, mtsParts_nope]
+  rfl
+
+/-- parsing the version-1 layout of a burst with MTS information and soft bits in -127..127 -/
+theorem RxMsg.parse_v1_burst (self : RxMsg) (fn tn : Nat) (rssi toa ci : Int) (mod : Modulation)
+    (set tsc : Nat) (md : Mod) (b : List Int)
+    (ht : tn < 8) (hf : fn < 4294967296) (hr : -255 ≤ rssi ∧ rssi ≤ 0)
+    (hto : -32768 ≤ toa ∧ toa ≤ 32767) (hci : -32768 ≤ ci ∧ ci ≤ 32767)
+    (hset : set < 4) (htsc : tsc < 8) (hg : mod.coding = 0 ∨ set ≤ 1) (hmd : modOf mod.coding set = some md)
+    (hbne : b ≠ []) (hs : ∀ s ∈ b, -127 ≤ s ∧ s ≤ 127) :
+    RxMsg.parseMsgFrom self
+        (hdr 1 tn fn ++ [(-rssi).toNat] ++ s16be toa ++ ([8 * md.bits + tsc] ++ s16be ci) ++ b.map softOctet)
+      = .ok { self with ver := 1, fn := some (fn : Int), tn := some (tn : Int), rssi := some rssi,
+                        toa256 := some toa, nopeInd := false, modType := some mod, tscSet := some (set : Int),
+                        tsc := some (tsc : Int), ci := some ci, burst := some b } := by
+  have e : hdr 1 tn fn ++ [(-rssi).toNat] ++ s16be toa ++ ([8 * md.bits + tsc] ++ s16be ci) ++ b.map softOctet
+      = hdr 1 tn fn ++ ((-rssi).toNat :: (s16be toa ++ ((8 * md.bits + tsc) :: (s16be ci ++ b.map softOctet)))) := by
+    simp only [List.append_assoc, List.cons_append, List.nil_append]
+  have hfin := mtsParts_fin mod ⟨set, hset⟩ ⟨tsc, htsc⟩ hg
+  simp only [hmd, Option.map_some, Option.some.injEq] at hfin
+  have hlen : 0 < (b.map softOctet).length := by
+    simp only [List.length_map]; exact List.length_pos_iff.mpr hbne
+  rw [e]
+  unfold RxMsg.parseMsgFrom
+  simp only [parseCommon_hdr 1 tn fn _ (by omega) ht hf, rxHdrLen_v1, bind, Except.bind, pure, Except.pure]
+  simp only [hdr, be32, s16be, List.cons_append, List.nil_append, List.length_cons,
+    show ¬ ((b.map softOctet).length + 1 + 1 + 1 + 1 + 1 + 1 + 1 + 1 + 1 + 1 + 1 < 11) by omega,
+    show ¬ ((b.map softOctet).length + 1 + 1 + 1 + 1 + 1 + 1 + 1 + 1 + 1 + 1 + 1 = 11) by omega, if_false]
+  rw [RxMsg.parseHdr_v1 _ _ _ _ _ _ _ rssi toa ci _ (by show (((1 : Nat) : Int) ≥ 1); omega) hr hto hci]
+  simp only [parseMts_parts, hfin, List.drop_succ_cons, List.drop_zero]
+  rw [RxMsg.parseBurst_v1 _ b (by show ¬ (((1 : Nat) : Int) = 0); omega) hs]
+  rfl
+
 end OsmoVerif.Trxd
